@@ -118,6 +118,10 @@ def parse_template(text, base_dir='.'):
         if s.startswith('//@props '):
             meta['props'] = s.split()[1:]
             continue
+        if s.startswith('//@cfg '):
+            # read by vchk: an extra `--cfg` for the verifier (a crate feature whose cfg-gated arms inside an extracted body are wanted)
+            meta.setdefault('cfg', []).append(s.split(None, 1)[1].strip())
+            continue
         if s.startswith('//@tier '):
             # read by vchk (a `thorough` unit is skipped by the quick tier)
             meta['tier'] = s.split()[1]
